@@ -118,6 +118,18 @@ type Shape struct {
 	// Prefix overrides the store-type byte the signer prepends (0 = the
 	// prescribed one): a Byzantine publisher signing with the wrong prefix.
 	Prefix int `json:"prefix,omitempty"`
+	// Ref makes one 32-byte hash inside the structure (a lease's gateway, a
+	// MetaLeaseSet entry's hash) refer to the structure itself instead of
+	// being unrelated bytes: low 4 bits = how (1 hash of own destination,
+	// 2 hash of own signing key, 3 first bytes of own identity, 4 own signing
+	// key bytes, 5 hash of everything before it, 6 same as the element
+	// before it, 7 zeros, 8 ones); the rest selects the element.
+	Ref int `json:"ref,omitempty"`
+	// SigFill replaces the trailing signature (which parsers do not verify)
+	// by bytes that look like more structure: 1 = a copy of the element(s)
+	// just before it (last lease / entry), 2 = a copy of the beginning of the
+	// frame, 3 = zeros. Only for worlds that do not judge verification.
+	SigFill int `json:"sigfill,omitempty"`
 }
 
 type OfflineShape struct {
